@@ -62,3 +62,42 @@ CHECKS.update({
               "reference scoping model predicts.", "DESIGN.md section 6 C16",
               "property-based testing of histories (Hypothesis) against a reference scoping model"),
 })
+
+CHECKS.update({
+    "C10": _c("Generated branches reuse pooled expression objects (aggregate, window, element-wise) under different group_by "
+              "states and verbs; a structural fingerprint of every pre-existing table and expression is compared before and "
+              "after every call, results with reused objects are compared with freshly built ones and with the reference, "
+              "re-exports and repeated build_query must agree.", "DESIGN.md section 6 C10",
+              "property-based testing of sharing histories (Hypothesis): structural fingerprints + fresh-vs-reused metamorphic oracle"),
+    "C12": _c("For generated pipelines over sized-integer / Float32 tables the static dtype of every output column is "
+              "compared with the exported Polars dtype (exact on Polars, numeric family on SQLite, Null only for all-null "
+              "columns) and Table(exported) / collect() round trips must reproduce the dtypes.", "DESIGN.md section 6 C12",
+              "property-based testing (Hypothesis), static-vs-dynamic oracle"),
+    "C14": _c("A generated valid history is followed by one verb call with exactly one offender from a catalogue (expression "
+              "offenders at generated syntactic positions and verb contexts, verb-level offenders); the call must raise the "
+              "documented exception type on both backends and leave the input table usable; converse cases check that "
+              "accepted pipelines export on Polars.", "DESIGN.md section 6 C14",
+              "property-based testing with planted faults (Hypothesis) against a catalogue of documented exception types"),
+    "C17": _c("The complete (source, target) acceptance matrix over the 50-type universe is compared with an independent "
+              "encoding of the documented conversion table, and a value grid of boundary values (columns and literals) plus "
+              "generated pipelines with casts are compared with the reference conversion on both backends.",
+              "DESIGN.md section 6 C17", "complete enumeration of the cast matrix + value grid and property-based testing against a reference"),
+    "C18": _c("Literals over an alphabet of SQL/LIKE/regex metacharacters (and negative numbers) are placed in 23 operator "
+              "positions; SQLite must agree with Polars and the reference, and the statement skeleton on SQLite, PostgreSQL "
+              "and MSSQL must not depend on the literal.", "DESIGN.md section 6 C18",
+              "property-based testing (Hypothesis): differential oracle + metamorphic skeleton invariance"),
+    "C19": _c("Generated pipelines are compiled with offline SQLite, PostgreSQL and MSSQL engines (one SELECT or a permitted "
+              "refusal, deterministic text), and the complete operator x signature x backend table is compiled.",
+              "DESIGN.md section 6 C19", "property-based testing with a validity predicate + complete enumeration of the operator table",
+              _NOTE + " PostgreSQL / MSSQL statements are never executed; DuckDB and DB2 drivers are absent."),
+    "C20": _c("For generated pipelines (biased towards one-row, one-cell, empty results) every export target is compared with "
+              "export(Polars()), ColExpr.export with the mutate column, and Table(exported) with the frame.",
+              "DESIGN.md section 6 C20", "property-based testing (Hypothesis), differential oracle between export targets"),
+})
+
+CHECKS.update({
+    "C15": _c("One pair constructor per listed equivalence instantiates both sides over generated prefix pipelines, "
+              "expressions and data; both sides must export the same table on Polars and on SQLite (a side refused by SQL "
+              "is counted, not compared).", "DESIGN.md section 6 C15",
+              "metamorphic property-based testing (Hypothesis): pairs of equivalent pipelines"),
+})
